@@ -14,6 +14,8 @@ pub struct Resource {
     pub len: Option<u32>,
     pub static_sampler: bool,
     pub bindless: bool,
+    /// a cbuffer block without members (`cbuffer X {}`): still a bound declaration on every target
+    pub empty: bool,
 }
 
 #[derive(Clone, Debug, PartialEq)]
@@ -59,6 +61,9 @@ pub struct Program {
     pub helpers: Vec<Func>,
     pub entries: Vec<Entry>,
     pub pipes: Vec<Pipe>,
+    /// 0: all functions first, then all Pipeline blocks; 1: every Pipeline block directly follows the last of its entry
+    /// points, so later entry points (and pipelines) are defined after earlier Pipeline blocks
+    pub layout: u8,
 }
 
 pub const RES_KINDS: &[(&str, &str)] = &[
@@ -114,6 +119,7 @@ pub fn gen_program(rng: &mut Rng, opts: &GenOpts) -> Program {
             len,
             static_sampler,
             bindless,
+            empty: kind == "cbuffer" && rng.chance(1, 6),
         });
     }
     let nstatics = rng.below(5) as usize;
@@ -181,7 +187,8 @@ pub fn gen_program(rng: &mut Rng, opts: &GenOpts) -> Program {
             default_group: if rng.chance(1, 3) { Some(rng.below(3) as u32) } else { None },
         });
     }
-    Program { nstatics, resources, helpers, entries, pipes }
+    let layout = if rng.chance(1, 3) { 1 } else { 0 };
+    Program { nstatics, resources, helpers, entries, pipes, layout }
 }
 
 fn gen_func(rng: &mut Rng, name: String, nres: usize, nhelpers_before: usize, nstatics: usize) -> Func {
@@ -211,7 +218,9 @@ fn body(p: &Program, f: &Func) -> String {
     for r in &f.uses {
         let res = &p.resources[*r];
         if res.kind == "cbuffer" {
-            s.push_str(&format!("    {}_v;\n", res.name));
+            if !res.empty {
+                s.push_str(&format!("    {}_v;\n", res.name));
+            }
         } else if res.len.is_some() {
             s.push_str(&format!("    {}[0u];\n", res.name));
         } else {
@@ -250,7 +259,11 @@ pub fn render_with(p: &Program, keep: &dyn Fn(usize) -> bool, extra: &dyn Fn(&st
             s.push_str(&format!("[[rssl::bind_group({})]] ", g));
         }
         if r.kind == "cbuffer" {
-            s.push_str(&format!("cbuffer {} {{ float4 {}_v; }}\n", r.name, r.name));
+            if r.empty {
+                s.push_str(&format!("cbuffer {} {{}}\n", r.name));
+            } else {
+                s.push_str(&format!("cbuffer {} {{ float4 {}_v; }}\n", r.name, r.name));
+            }
             continue;
         }
         s.push_str(&format!("{} {}", r.ty, r.name));
@@ -265,7 +278,7 @@ pub fn render_with(p: &Program, keep: &dyn Fn(usize) -> bool, extra: &dyn Fn(&st
     for h in &p.helpers {
         s.push_str(&format!("void {}() {{\n{}}}\n", h.name, body(p, h)));
     }
-    for e in &p.entries {
+    let emit_entry = |s: &mut String, e: &Entry| {
         let b = body(p, &e.func);
         let n = &e.func.name;
         match e.stage {
@@ -296,11 +309,8 @@ pub fn render_with(p: &Program, keep: &dyn Fn(usize) -> bool, extra: &dyn Fn(&st
                 ));
             }
         }
-    }
-    for (i, pipe) in p.pipes.iter().enumerate() {
-        if !keep(i) {
-            continue;
-        }
+    };
+    let emit_pipe = |s: &mut String, pipe: &Pipe| {
         s.push_str(&format!("Pipeline {}\n{{\n", pipe.name));
         for k in &pipe.stages {
             let e = &p.entries[*k];
@@ -310,6 +320,34 @@ pub fn render_with(p: &Program, keep: &dyn Fn(usize) -> bool, extra: &dyn Fn(&st
             s.push_str(&format!("    DefaultBindGroup = {};\n", g));
         }
         s.push_str("}\n");
+    };
+    if p.layout == 1 {
+        let mut done = vec![false; p.entries.len()];
+        for (i, pipe) in p.pipes.iter().enumerate() {
+            for k in &pipe.stages {
+                if !done[*k] {
+                    done[*k] = true;
+                    emit_entry(&mut s, &p.entries[*k]);
+                }
+            }
+            if keep(i) {
+                emit_pipe(&mut s, pipe);
+            }
+        }
+        for (k, e) in p.entries.iter().enumerate() {
+            if !done[k] {
+                emit_entry(&mut s, e);
+            }
+        }
+    } else {
+        for e in &p.entries {
+            emit_entry(&mut s, e);
+        }
+        for (i, pipe) in p.pipes.iter().enumerate() {
+            if keep(i) {
+                emit_pipe(&mut s, pipe);
+            }
+        }
     }
     s
 }
